@@ -838,4 +838,197 @@ theorem cpl_fieldTail {m : Nat} (hsel : CplSel m) (n : Nat) (pos : Pos) (al nm :
       rintro y b5 ⟨rfl, rfl⟩
       exact ⟨as', ds', _, rfl, has, hds, by rw [selOut_cons]; exact hp, hσ⟩
 
+theorem cpl_requiredSelSet {m : Nat} (hsel : CplSel m) (n : Nat) (ts o : List Tok) (hok : TsOK ts) (hd : D (.nt .selectionSet) ts o)
+    (a : AS) (σ' : Stream) (hs : Starts a.σ ts σ') :
+    Fwd (parseRequiredSelectionSetWith (parseSelection m) n) a (fun ss a' => printSelectionSet ss = o ∧ a'.σ = σ') := by
+  obtain ⟨parts, _, e, _, _⟩ := inv_selectionSet hd hok
+  have hk : a.σ.head.kind = .braceL := by rw [e] at hs; exact hs.head_kind
+  unfold parseRequiredSelectionSetWith
+  refine Fwd.bind (fwd_peek a) ?_
+  rintro t a1 ⟨rfl, rfl⟩
+  refine Fwd.ite_neg (by simp [hk]) (Fwd.bind (cpl_selBlock hsel n ts o hok hd _ σ' (by simpa using hs)) ?_)
+  rintro ys a2 ⟨_, hp, hσ⟩
+  exact (Fwd.pure _ _).mono fun _ _ h => ⟨by rw [h.1]; exact hp, by rw [h.2, hσ]⟩
+
+theorem cpl_inlineTail {m : Nat} (hsel : CplSel m) (n : Nat) (pos : Pos) (tc : Name) (td od tss oss : List Tok)
+    (hokd : TsOK td) (hoks : TsOK tss) (dd : D (.opt (.nt (.directives false))) td od) (dss : D (.nt .selectionSet) tss oss)
+    (a : AS) (σ' : Stream) (hs : Starts a.σ (td ++ tss) σ') :
+    Fwd (inlineTail (parseSelection m) n pos tc) a (fun s a' => ∃ ds ss, s = Selection.inline tc ds ss pos ∧
+      printDirectives ds = od ∧ printSelectionSet ss = oss ∧ a'.σ = σ') := by
+  rw [Starts.append_iff] at hs
+  obtain ⟨σ1, h1, h2⟩ := hs
+  obtain ⟨parts, _, e, _, _⟩ := inv_selectionSet dss hoks
+  have k2 : σ1.head.kind = .braceL := by rw [e] at h2; exact h2.head_kind
+  unfold inlineTail
+  refine Fwd.bind (cpl_directives false n td od hokd dd a σ1 h1 (by rw [k2]; decide) (by rw [k2]; decide)) ?_
+  rintro ds' a1 ⟨hds, hσ1⟩
+  refine Fwd.bind (cpl_requiredSelSet hsel n tss oss hoks dss a1 σ' (by rw [hσ1]; exact h2)) ?_
+  rintro ss' a2 ⟨hss, hσ⟩
+  refine (Fwd.pure _ _).mono ?_
+  rintro y a3 ⟨rfl, rfl⟩
+  exact ⟨ds', ss', rfl, hds, hss, hσ⟩
+
+/-- **selections** -/
+theorem cpl_selection : ∀ n, CplSel n
+  | 0 => fun _ _ _ _ _ _ _ _ => Fwd.outOfFuel _ _ _
+  | n + 1 => by
+    have ih := cpl_selection n
+    intro ts o hok hd a σ' hs hfol
+    rcases hd.nt_inv.alt_inv with hd | hd
+    · -- field
+      obtain ⟨colon, al, nm, ta, oa, td, od, tss, oss, rfl, rfl, hcol, da, dd, dss⟩ := inv_field hd hok
+      have hkn : a.σ.head.kind = .name := by
+        rw [hs.firstKind]; cases colon <;> simp [tName]
+      unfold parseSelection
+      refine Fwd.bind (fwd_peek a) ?_
+      rintro t a1 ⟨rfl, rfl⟩
+      refine Fwd.ite_neg (by rw [hkn]; decide) ?_
+      rw [parseFieldWith_eq]
+      refine Fwd.bind (fwd_peekPos _) ?_
+      rintro pos a2 rfl
+      have hfin : ∀ (b : AS) (al' : Name), al' = al → Starts b.σ (ta ++ (td ++ tss)) σ' →
+          Fwd (fieldTail (parseSelection n) (n + 1) pos al' nm) b (fun s a' =>
+            printSelection s = dropSelfAlias ((if colon then [tName al, tP .colon] else []) ++ ([tName nm] ++ (oa ++ (od ++ oss)))) ∧
+            a'.σ = σ') := by
+        intro b al' hal hst
+        subst hal
+        have hokr : TsOK (ta ++ (td ++ tss)) := by
+          cases colon
+          · exact hok.right.right
+          · exact hok.right.right
+        refine (cpl_fieldTail ih (n + 1) pos al' nm ta oa td od tss oss hokr.left hokr.right.left hokr.right.right da dd dss b σ' hst hfol).mono ?_
+        rintro s a' ⟨args, ds, ss, rfl, e1, e2, e3, hσ⟩
+        exact ⟨by rw [← e1, ← e2, ← e3]; exact (dropSelfAlias_field al' nm args ds ss pos colon hcol).symm, hσ⟩
+      cases colon with
+      | false =>
+        have := hcol rfl
+        subst this
+        simp only [Bool.false_eq_true, if_false, List.nil_append, List.singleton_append] at hs
+        obtain ⟨σ1, h1, h2⟩ := hs.cons_single
+        refine Fwd.bind (fwd_parseName al h1) ?_
+        rintro x a3 ⟨rfl, hσ3⟩
+        have k2 : σ1.head.kind ≠ .colon := by
+          have hokr : TsOK (ta ++ (td ++ tss)) := hok.right.right
+          rw [h2.firstKind]
+          simp only [firstKind_append]
+          have ha : firstKind ta (firstKind td (firstKind tss σ'.head.kind)) = firstKind td (firstKind tss σ'.head.kind) ∨
+              firstKind ta (firstKind td (firstKind tss σ'.head.kind)) = .parenL := by
+            rcases inv_optArguments da hokr.left with ⟨rfl, _⟩ | ⟨parts, _, rfl, _⟩
+            · exact .inl rfl
+            · exact .inr rfl
+          have hd' := firstKind_optDirectives dd hokr.right.left (firstKind tss σ'.head.kind)
+          have hs' : firstKind tss σ'.head.kind = σ'.head.kind ∨ firstKind tss σ'.head.kind = .braceL := by
+            rcases first_optSelectionSet dss hokr.right.right with ⟨rfl, _⟩ | ⟨⟨rest, rfl⟩, _⟩
+            · exact .inl rfl
+            · exact .inr rfl
+          rcases ha with h | h <;> rw [h]
+          · rcases hd' with h | h <;> rw [h]
+            · rcases hs' with h | h <;> rw [h]
+              · exact hfol.1
+              · decide
+            · decide
+          · decide
+        refine Fwd.bind (fwd_skipP_no .colon (by rw [hσ3]; exact k2)) ?_
+        rintro b a4 ⟨rfl, hσ4⟩
+        refine Fwd.ite_neg (by simp) ?_
+        exact hfin a4 x rfl (by rw [hσ4, hσ3]; exact h2)
+      | true =>
+        simp only [if_true, List.cons_append, List.nil_append, List.singleton_append] at hs
+        obtain ⟨σ1, h1, hs⟩ := hs.cons_single
+        obtain ⟨σ2, h2, hs⟩ := hs.cons_single
+        obtain ⟨σ3, h3, h4⟩ := hs.cons_single
+        refine Fwd.bind (fwd_parseName al h1) ?_
+        rintro x a3 ⟨rfl, hσ3⟩
+        refine Fwd.bind (fwd_skipP_yes .colon (by rw [hσ3]; exact h2)) ?_
+        rintro b a4 ⟨rfl, hσ4⟩
+        refine Fwd.ite_pos rfl (Fwd.bind (fwd_parseName nm (by rw [hσ4]; exact h3)) ?_)
+        rintro y a5 ⟨rfl, hσ5⟩
+        exact hfin a5 x rfl (by rw [hσ5]; exact h4)
+    rcases hd.alt_inv with hd | hd
+    · -- fragment spread
+      obtain ⟨nm, td, od, hnm, rfl, rfl, dd⟩ := inv_spread hd hok
+      obtain ⟨f1, f2, f3, f4⟩ := hfol
+      obtain ⟨σ1, h1, hs2⟩ := hs.cons_single
+      obtain ⟨σ2, h2, h3⟩ := hs2.cons_single
+      obtain ⟨u, hσu, hu⟩ := h2.single
+      unfold parseSelection
+      refine Fwd.bind (fwd_peek a) ?_
+      rintro t a1 ⟨rfl, rfl⟩
+      refine Fwd.ite_pos hs.head_kind ?_
+      rw [parseFragmentWith_eq]
+      refine Fwd.bind (fwd_punct .spread (by simpa using h1)) ?_
+      rintro _ a2 hσ2
+      refine Fwd.bind (fwd_peek a2) ?_
+      rintro pk a3 ⟨rfl, rfl⟩
+      have hk : a2.σ.head.kind = .name := by rw [hσ2, hσu]; exact ofToken_kind hu
+      have hv : a2.σ.head.value = nm := by rw [hσ2, hσu]; exact ofToken_value hu
+      refine Fwd.ite_pos ⟨hk, by rw [hv]; exact hnm⟩ (Fwd.bind (fwd_peekPos _) ?_)
+      rintro pos a4 rfl
+      refine Fwd.bind (fwd_parseFragmentName nm (by simpa [hσ2] using h2) hnm) ?_
+      rintro x a5 ⟨rfl, hσ5⟩
+      refine Fwd.bind (cpl_directives false (n + 1) td od hok.tail.tail dd a5 σ' (by rw [hσ5]; exact h3) f3 f2) ?_
+      rintro ds' a6 ⟨hds, hσ⟩
+      refine (Fwd.pure _ _).mono ?_
+      rintro y a7 ⟨rfl, rfl⟩
+      exact ⟨by simp [printSelection, hds], hσ⟩
+    · -- inline fragment
+      obtain ⟨tc, td, od, tss, oss, rfl, rfl, dd, dss⟩ := inv_inline hd hok
+      obtain ⟨σ1, h1, hs2⟩ := hs.cons_single
+      have hokr : TsOK ((if tc = [] then [] else [tKw "on", tName tc]) ++ (td ++ tss)) := hok.tail
+      have hfin : ∀ (b : AS) (pos : Pos) (tc' : Name), tc' = tc → Starts b.σ (td ++ tss) σ' →
+          Fwd (inlineTail (parseSelection n) (n + 1) pos tc') b (fun s a' =>
+            printSelection s = tP .spread :: ((if tc = [] then [] else [tKw "on", tName tc]) ++ (od ++ oss)) ∧ a'.σ = σ') := by
+        intro b pos tc' htc hst
+        subst htc
+        refine (cpl_inlineTail ih (n + 1) pos tc' td od tss oss hokr.right.left hokr.right.right dd dss b σ' hst).mono ?_
+        rintro s a' ⟨ds, ss, rfl, e1, e2, hσ⟩
+        exact ⟨by simp [printSelection, ← e1, ← e2, printSelectionSet], hσ⟩
+      unfold parseSelection
+      refine Fwd.bind (fwd_peek a) ?_
+      rintro t a1 ⟨rfl, rfl⟩
+      refine Fwd.ite_pos hs.head_kind ?_
+      rw [parseFragmentWith_eq]
+      refine Fwd.bind (fwd_punct .spread (by simpa using h1)) ?_
+      rintro _ a2 hσ2
+      refine Fwd.bind (fwd_peek a2) ?_
+      rintro pk a3 ⟨rfl, rfl⟩
+      by_cases htc : tc = []
+      · subst htc
+        simp only [if_true, List.nil_append] at hs2 hokr
+        have hk : a2.σ.head.kind ≠ .name := by
+          rw [hσ2, hs2.firstKind]
+          simp only [firstKind_append]
+          obtain ⟨parts, _, e, _, _⟩ := inv_selectionSet dss hokr.right
+          have hb : firstKind tss σ'.head.kind = .braceL := by rw [e]; rfl
+          rcases firstKind_optDirectives dd hokr.left (firstKind tss σ'.head.kind) with h | h <;> rw [h]
+          · rw [hb]; decide
+          · decide
+        refine Fwd.ite_neg (fun h => hk h.1) (Fwd.bind (fwd_peekPos _) ?_)
+        rintro pos a4 rfl
+        refine Fwd.bind (fwd_peek _) ?_
+        rintro t2 a5 ⟨rfl, rfl⟩
+        refine Fwd.ite_neg (fun h => hk h.1) ?_
+        exact hfin _ pos [] rfl (by simpa [hσ2] using hs2)
+      · simp only [if_neg htc, List.cons_append, List.nil_append] at hs2
+        obtain ⟨σ2, h2, hs3⟩ := hs2.cons_single
+        obtain ⟨σ3, h3, h4⟩ := hs3.cons_single
+        obtain ⟨u, hσu, hu⟩ := h2.single
+        have hk : a2.σ.head.kind = .name := by rw [hσ2, hσu]; exact ofToken_kind hu
+        have hv : a2.σ.head.value = kwOn := by rw [hσ2, hσu]; exact ofToken_value hu
+        refine Fwd.ite_neg (fun h => h.2 hv) (Fwd.bind (fwd_peekPos _) ?_)
+        rintro pos a4 rfl
+        refine Fwd.bind (fwd_peek _) ?_
+        rintro t2 a5 ⟨rfl, rfl⟩
+        refine Fwd.ite_pos ⟨hk, hv⟩ (Fwd.bind (fwd_next (a := { pk := true, σ := a2.σ, cnt := a2.cnt }) (t := u) (σ' := σ2) rfl
+          (by simp [hσ2, hσu])) ?_)
+        rintro _ a6 ⟨_, rfl⟩
+        refine Fwd.bind (fwd_parseName tc (by simpa using h3)) ?_
+        rintro x a7 ⟨rfl, hσ7⟩
+        exact hfin a7 pos x rfl (by rw [hσ7]; exact h4)
+
+theorem cpl_requiredSelectionSet (n : Nat) (ts o : List Tok) (hok : TsOK ts) (hd : D (.nt .selectionSet) ts o)
+    (a : AS) (σ' : Stream) (hs : Starts a.σ ts σ') :
+    Fwd (parseRequiredSelectionSet n) a (fun ss a' => printSelectionSet ss = o ∧ a'.σ = σ') :=
+  cpl_requiredSelSet (cpl_selection n) n ts o hok hd a σ' hs
+
 end Gql.Parser
